@@ -122,7 +122,7 @@ def run_cases(c, exe, cases, tag, tcfg, jobs=8):
 
 
 def judge(c, exe, variant, cases, tag, tcfg):
-    res = run_cases(c, exe, cases, tag, tcfg)
+    res = run_cases(c, exe, cases, tag, tcfg, jobs=8 if c.quick else 24)
     fails = [_minimise.Failure(ops, evs, k) for ops, (evs, k) in zip(cases, res) if k is not None]
     c.extra["rejected_executions"] = c.extra.get("rejected_executions", 0) + len(fails)
     if not fails:
